@@ -12,6 +12,10 @@ VERIF = os.path.dirname(os.path.dirname(os.path.abspath(__file__)))
 def main():
     d = os.path.abspath(sys.argv[1])
     props = sys.argv[2:]
+    import fcntl
+    os.makedirs(os.path.join(VERIF, ".cache"), exist_ok=True)
+    lk = open(os.path.join(VERIF, ".cache", "repo.lock"), "w")
+    fcntl.flock(lk, fcntl.LOCK_EX)   # keeps scratch copies (mutation runs) from seeing the patched tree
     st = subprocess.run(["git", "-C", "/repo", "status", "--porcelain"], capture_output=True, text=True).stdout.strip()
     if st:
         print("refusing: /repo working tree is not clean:\n" + st)
